@@ -1449,6 +1449,14 @@ Definition K11 (g : gst) := forall q l tg, filt (gp g q) FAnswer l tg = true -> 
 Definition K12 (g : gst) := forall q tg, dbar (gp g q) tg <> None ->
   TD g q tg \/ exists x, m_act x = 4 /\ mtag x = tg /\ forall i, 0 <= i <= 2 * t -> In (q, i, x) (gsent g).
 
+Definition has_dbar (g : gst) (tg : tagT) : Prop := exists p' d, dbar (gp g p') tg = Some d.
+(* on the FIFO root channel every delivery, every deliver-buffer entry and every l-deliver answer for a root-channel tag goes
+   back to a party that fixed a digest by 2t+1 r-ready *)
+Definition K13 (g : gst) :=
+  (forall q w s v, In (q, (0, w, s), v) (glog g) -> has_dbar g (0, w, s)) /\
+  (forall q w s, In (0, w, s) (dbuf (gp g q)) -> has_dbar g (0, w, s)) /\
+  (forall l dst x, In (l, dst, x) (gsent g) -> m_act x = 7 -> m_id x = 0 -> has_dbar g (mtag x)).
+
 Section OneStep4b.
 Variables (g g' : gst) (p : Z) (st' : pst) (out : list (Z * msg)) (r : dres) (offer : option (Z * msg)).
 Hypothesis Hp : hon p.
@@ -1707,6 +1715,53 @@ Proof.
   - right. exists x. repeat split; auto.
   - left. apply tried_TD. exact T.
   - exfalso. apply (dbar_nonzero g' Ig' p tg 0); [rewrite gp_p; exact DZ|reflexivity].
+Qed.
+
+Lemma has_dbar_mono : forall tg, has_dbar g tg -> has_dbar g' tg.
+Proof.
+  intros tg (p' & d & D). destruct (scasesb p') as [[-> E]|[N E]].
+  - exists p, d. rewrite E. apply dbar_stable. exact D.
+  - exists p', d. rewrite E. exact D.
+Qed.
+
+Lemma K13_step : K13 g -> K13 g'.
+Proof.
+  intros (Aa & Ab & Ac). pose proof I4g as (NSg & (_ & DLb & _) & _).
+  assert (C' : forall l dst x, In (l, dst, x) (gsent g') -> m_act x = 7 -> m_id x = 0 -> has_dbar g' (mtag x)).
+  { intros l dst x I A7 Id. apply snewb in I. destruct I as [I|[-> I]]; [apply has_dbar_mono; eapply Ac; eauto|].
+    pose proof Q4 as Q40. destruct Q40 as (W & _ & _ & _ & _ & _ & _ & _ & _ & _ & Lc).
+    destruct (NSg p) as [_ F]. pose proof (Lc _ _ I A7 Hskip F) as LT.
+    destruct (W _ _ I) as (_ & S1); [lia|lia|].
+    destruct (DLb p (m_j x) (m_s x)) as (v & Iv); [lia|].
+    apply has_dbar_mono. unfold mtag. rewrite Id. eapply Aa; eauto. }
+  (* a tag validated at p in this step *)
+  assert (SV : forall w s, svalid st' (0, w, s) -> has_dbar g' (0, w, s)).
+  { intros w s [(d & D & _)|(x & M & (L & ND & Len & AL))].
+    - exists p, d. rewrite gp_p. exact D.
+    - destruct (nodup_exceeds_honest B L ND) as (l & J & NB); [lia|].
+      destruct (AL l J) as (F & _). destruct I2g' as (_ & _ & Rh' & _).
+      destruct (Rh' p l (0, w, s)) as (_ & [Y|(m & Im & Tm & Am & _)]); [rewrite gp_p; exact F|exfalso; auto|].
+      rewrite <- Tm. eapply C'; eauto. unfold mtag in Tm. inversion Tm. reflexivity. }
+  split; [|split]; auto.
+  - intros q w s v I. rewrite Elog in I. apply in_app_or in I. destruct I as [I|I]; [apply has_dbar_mono; eapply Aa; eauto|].
+    apply log_of_in in I. destruct I as (-> & who & Er).
+    pose proof Q2 as Q20. destruct Q20 as (_ & _ & _ & Dl & _). destruct (Dl _ _ _ Er) as (_ & [V|V]); auto.
+    apply has_dbar_mono. eapply Ab; eauto.
+  - intros q w s I. destruct (scasesb q) as [[-> E]|[N E]]; rewrite E in *; [|apply has_dbar_mono; eapply Ab; eauto].
+    pose proof Q2 as Q20. destruct Q20 as (_ & _ & _ & _ & Bf). destruct (Bf _ I) as [J|J]; auto.
+    apply has_dbar_mono. eapply Ab; eauto.
+Qed.
+
+Definition INV4b_ (g0 : gst) : Prop :=
+  K5 g0 /\ G0e g0 /\ G4e g0 /\ RQa g0 /\ RQb g0 /\ K9 g0 /\ RQc g0 /\ K10 g0 /\ K11 g0 /\ K12 g0 /\ K13 g0.
+
+Lemma INV4b_onestep : INV4b_ g -> INV4b_ g'.
+Proof.
+  intros (A1 & A2 & A3 & A4 & A5 & A6 & A7 & A8 & A9 & A10 & A11). unfold INV4b_.
+  split; [apply K5_step; auto|]. split; [apply G0e_step; auto|]. split; [apply G4e_step; auto|].
+  split; [apply RQa_step; auto|]. split; [apply RQb_step; auto|]. split; [apply K9_step; auto|].
+  split; [apply RQc_step; auto|]. split; [apply K10_step; auto|]. split; [apply K11_step; auto|].
+  split; [apply K12_step; auto|apply K13_step; auto].
 Qed.
 
 End OneStep4b.
